@@ -8,6 +8,7 @@ A small fixed family of mapped classes in a private ``registry()``:
 * ``Child.grandchildren`` / ``Grandchild.child`` one-to-many / many-to-one (back_populates)
 * ``Parent.tags``                                many-to-many through ``parent_tag`` (no backref)
 * ``Parent.owner`` / ``Owner.parents``           many-to-one with the one-to-many as reverse side
+* ``Parent.profile`` / ``Profile.parent``        one-to-one (scalar on the Parent side, foreign key on Profile; default cascade)
 
 The cascade setting of the four "forward" relationships (children, grandchildren,
 tags, owner) is a parameter; one mapping is built and cached per distinct
@@ -95,6 +96,8 @@ class Family:
                 owner_id = Column(ForeignKey("owner.id"))
                 children = rel("Child", c_children, back_populates="parent", order_by="Child.id")
                 tags = rel("Tag", c_tags, secondary=parent_tag, order_by="Tag.id", _needs_single_parent=True)
+                # one-to-one seen from the one-to-many direction (scalar on the side that does not hold the foreign key)
+                profile = relationship("Profile", back_populates="parent", uselist=False)
                 owner = rel("Owner", c_owner, back_populates="parents", _needs_single_parent=True)
 
                 def __repr__(self):
@@ -125,6 +128,17 @@ class Family:
                     return f"Grandchild#{self.__dict__.get('id')}"
 
             @reg.mapped
+            class Profile:
+                __tablename__ = "profile"
+                id = Column(Integer, primary_key=True)
+                parent_id = Column(ForeignKey("parent.id"))
+                x = Column(Integer)
+                parent = relationship("Parent", back_populates="profile")
+
+                def __repr__(self):
+                    return f"Profile#{self.__dict__.get('id')}"
+
+            @reg.mapped
             class Tag:
                 __tablename__ = "tag"
                 id = Column(Integer, primary_key=True)
@@ -134,7 +148,8 @@ class Family:
                     return f"Tag#{self.__dict__.get('id')}"
 
             self.Owner, self.Parent, self.Child, self.Grandchild, self.Tag = Owner, Parent, Child, Grandchild, Tag
-            self.classes = {"owner": Owner, "parent": Parent, "child": Child, "grandchild": Grandchild, "tag": Tag}
+            self.Profile = Profile
+            self.classes = {"owner": Owner, "parent": Parent, "child": Child, "grandchild": Grandchild, "tag": Tag, "profile": Profile}
             reg.configure()
 
 
@@ -161,6 +176,7 @@ TABLE_COLS = {
     "grandchild": ("id", "child_id", "x"),
     "tag": ("id", "name"),
     "parent_tag": ("parent_id", "tag_id"),
+    "profile": ("id", "parent_id", "x"),
 }
 
 
